@@ -259,6 +259,17 @@ def gen_motion(ctx):
         steps = [[r.choice([D - eps, D + eps, D, D / 2, D / 2 - eps, D / 2 + eps / 2, D / 4]), 0.0, 0.0] for _ in range(r.randint(3, 8))]
         yield {"kind": "motion", "mode": "rand", "steps": steps, "start": [0.0, 0.0, 0.0], "quats": [[1.0, 0.0, 0.0, 0.0]] * (len(steps) + 1),
                "d": D, "a": 1e6, "degrees": False, "nearmiss": True}
+    for k in range(120 if ctx.thorough else 30):
+        # one long leg, then short axis-parallel steps (all exactly representable): the path *since the last kept pose*
+        # sits half a unit around the threshold; a difference of two long accumulated lengths cannot resolve that
+        big = 2.0 ** r.choice([20, 26, 30, 34])
+        u = 2.0 ** r.choice([-20, -24, -28])
+        ks = [r.randint(1, 5) for _ in range(r.randint(2, 7))]
+        steps = [[big, 0.0, 0.0]] + [[0.0, kk * u, 0.0] if r.random() < 0.7 else [0.0, 0.0, kk * u] for kk in ks]
+        m = r.randint(1, len(ks))
+        D = (sum(ks[:m]) + r.choice([-0.5, 0.0, 0.5])) * u
+        yield {"kind": "motion", "mode": "rand", "steps": steps, "start": [0.0, 0.0, 0.0], "quats": [[1.0, 0.0, 0.0, 0.0]] * (len(steps) + 1),
+               "d": D, "a": 1e6, "degrees": False, "nearmiss": True, "mixed": True}
     nlong = 5000 if ctx.thorough else 1000
     for k in range(40 if ctx.thorough else 12):
         n = r.randint(200, nlong)
